@@ -46,9 +46,15 @@ bool do_try(LockObj &L, int li) {
   L.inflight++; L.epoch++;
   uint64_t e0 = L.epoch;
   pboolean r;
+  int f0 = shim::mutex_lock_failures[cur()->id];
   if (L.is_spin) r = HX_API("p_spinlock_trylock", li, true, p_spinlock_trylock(L.s));
   else r = HX_API("p_mutex_trylock", li, true, p_mutex_trylock(L.m));
   L.inflight--;
+  if (shim::mutex_lock_failures[cur()->id] != f0) {
+    // a native (try)lock call was made to fail inside this call: the caller got nothing, so TRUE would be a lie
+    was_free = false;
+    probe("lock.native_trylock_failed");
+  }
   if (!r && was_free && L.epoch == e0 && !L.model_held)
     violate("trylock_failed_on_free_lock", L.is_spin ? "p_spinlock_trylock" : "p_mutex_trylock", "trylock returned FALSE although the lock was free and nobody else was using it");
   if (r) probe("lock.trylock_succeeded"); else probe("lock.trylock_busy");
@@ -164,9 +170,10 @@ void root() {
   }
   // a native lock call that fails (resource shortage): the library call reports FALSE and the caller is not a holder
   if (gen(16) == 0) { shim::fail_mutex_lock_kth = 1 + (int)gen(12); describe(" native-lock-failure#%d", shim::fail_mutex_lock_kth); }
+  if (gen(16) == 0) { shim::fail_mutex_trylock_kth = 1 + (int)gen(6); describe(" native-trylock-failure#%d", shim::fail_mutex_trylock_kth); }
   for (int t = 0; t < nt; t++) spawn(0, [t]() { task_body(t); });
   wait_all_others();
-  shim::fail_mutex_lock_kth = 0;      // the fault belongs to the scripts: the wind-down below is fault-free
+  shim::fail_mutex_lock_kth = 0; shim::fail_mutex_trylock_kth = 0;      // the faults belong to the scripts: the wind-down below is fault-free
   for (int i = 0; i < nl; i++) {
     LockObj &L = st.locks[i];
     SIM_READ(L.counter);
